@@ -424,7 +424,7 @@ impl GlobalInferenceCtx<'_> {
                     }
                 }
             }
-            Expr::ArrayLiteral { ty: None, items } => match new_ty.as_ref() {
+            Expr::ArrayLiteral { ty: None, items } => match new_ty.absolute_ty() {
                 Ty::ConcreteArray { sub_ty, .. } => {
                     for item in items {
                         self.replace_weak_tys(item, *sub_ty);
